@@ -14,19 +14,21 @@ COMMON_ASSUMPTIONS = [
 ]
 
 
-def R(name, cfg, module="MC_Core", rounds=2, **kw):
+def R(name, cfg, module="MC", rounds=2, **kw):
     d = dict(name=name, module=module, cfg=cfg, rounds=rounds)
     d.update(kw)
     return d
 
 
-CORE_ALL3 = R("core.all3", "MC_Core_all3.cfg",
+CORE_ALL3 = R("core_all3", "core_all3.cfg",
               expect_ops=["new", "add_assertion", "add_assertion_envelope", "remove_assertion", "replace_subject",
                           "wrap", "unwrap", "elide", "elide_set", "compress", "encrypt_subject", "decrypt_subject",
                           "encode_decode"])
-CORE_Q = R("core.q", "MC_Core_q.cfg", expect_ops=["add_assertion_po", "replace_assertion", "assertion_with_digest"])
-OBS_Q = R("obscure.q", "MC_Obscure_q.cfg", expect_ops=["build", "elide_set", "compress", "encrypt"])
-OBS_Q2 = R("obscure.q2", "MC_Obscure_q2.cfg", expect_ops=["build", "elide_set", "unelide"])
+CORE_Q = R("core_q", "core_q.cfg", expect_ops=["add_assertion_po", "replace_assertion", "assertion_with_digest"])
+OBS_Q = R("obscure_q", "obscure_q.cfg", expect_ops=["build", "elide_set", "compress", "encrypt"])
+OBS_Q2 = R("obscure_q2", "obscure_q2.cfg", expect_ops=["build", "elide_set", "unelide"])
+
+TWIN_Q = R("twin_q", "twin_q.cfg", expect_ops=["build", "assertion_with_digest", "elide", "compress", "add_assertions", "add_assertion_envelope", "remove_assertion"])
 
 PLAN = {
     "C01": dict(
@@ -44,7 +46,8 @@ PLAN = {
     ),
     "C04": dict(
         rule="all mutating action families from the empty register file, depth <= 3 (all families) and <= 4 (construct/assertions/wrap); serialized bytes of every result must equal the evaluated wire term whose node arrays are sorted by the real digest bytes",
-        quick=[CORE_ALL3, CORE_Q],
+        quick=[CORE_ALL3, TWIN_Q],
+        thorough=[CORE_ALL3, CORE_Q, TWIN_Q],
     ),
     "C05": dict(
         rule="encode->decode (bytes, CBOR value and UR string variants) of every envelope reachable in the bounded machine; decoded projection identical and re-encoding byte-identical",
@@ -52,6 +55,7 @@ PLAN = {
     ),
     "C07": dict(
         rule="all insertion sequences of the bounded machine; results compared with the order-free (set based) specification term, byte for byte",
-        quick=[CORE_Q, CORE_ALL3],
+        quick=[CORE_Q, TWIN_Q],
+        thorough=[CORE_Q, CORE_ALL3, TWIN_Q],
     ),
 }
